@@ -239,6 +239,31 @@ theorem unconstrained_index_fetch_equals_scan (fields : List String) (f : IndexM
   | nil => exact absurd hk (every_document_has_an_entry_in_every_index d fields)
   | cons key t => exact ⟨key, List.mem_cons_self, rfl⟩
 
+/-- instances of the completeness premise: an equality on the leading scalar field, or `_any: {_eq: v}` on the leading
+    array field, served by the prefix look-up under `v`, returns what the scan returns — for a single conjunction of
+    conditions, any further conditions, any further index fields -/
+theorem leading_eq_lookup_equals_scan (f0 : String) (rest : List String) (v : Query.V) (conj : List IndexMulti.Atom)
+    (hin : IndexMulti.Atom.sc f0 .eq [v] ∈ conj) (hsc : IndexMulti.isArrayField f0 = false)
+    (docs : List IndexMulti.MDoc) (hn : (docs.map (·.k)).Nodup) :
+    (IndexMulti.indexFetch (f0 :: rest) (fun key => Query.vEq v (key.headD .null)) [conj] docs).Perm
+      (IndexMulti.eval [conj] docs) :=
+  index_fetch_equals_scan _ _ _ docs hn (fun d _ hs => IndexMulti.leading_eq_complete f0 rest v conj hin hsc d hs)
+
+theorem leading_any_eq_lookup_equals_scan (f0 : String) (rest : List String) (v : Query.V)
+    (conj : List IndexMulti.Atom) (hin : IndexMulti.Atom.arr f0 .any .eq [v] ∈ conj)
+    (harr : IndexMulti.isArrayField f0 = true) (docs : List IndexMulti.MDoc) (hn : (docs.map (·.k)).Nodup) :
+    (IndexMulti.indexFetch (f0 :: rest) (fun key => Query.vEq v (key.headD .null)) [conj] docs).Perm
+      (IndexMulti.eval [conj] docs) :=
+  index_fetch_equals_scan _ _ _ docs hn (fun d _ hs => IndexMulti.leading_any_eq_complete f0 rest v conj hin harr d hs)
+
+/-- non-vacuity: an index on (nums, name), `nums: {_any: {_eq: 2}}`: two of three documents, the one holding 2 twice
+    listed once -/
+example :
+    IndexMulti.indexFetch ["nums", "name"] (fun key => Query.vEq (.int 2) (key.headD .null))
+      [[IndexMulti.Atom.arr "nums" .any .eq [.int 2]]]
+      [⟨1, .str [97], .null, some [.int 2, .int 2, .int 5], none⟩, ⟨2, .str [98], .null, some [], none⟩,
+       ⟨3, .null, .null, some [.int 1, .int 2], none⟩] = [1, 3] := by decide
+
 /-- without the de-duplication the statement is false: a document with two entries is listed twice -/
 example : ([7, 7, 8].filter (fun _ => true)) ≠ [7, 8] ∧ (IndexMulti.dedupSeen [] [7, 7, 8]).filter (fun _ => true) = [7, 8] := by
   decide
